@@ -14,7 +14,13 @@ PLAN = {
     "C09": dict(families=[("comp", 30, 300), ("ent", 16, 160)],
                 oracle=lambda h: [f for f in (T.oracle_components(h) if h.family != "ent" else T.oracle_entities(h)) if f[0] == "C09"],
                 slices=["comp"], ref="§7 C09"),
-    "C01": dict(families=[("ent", 40, 400)], oracle=lambda h: [f for f in T.oracle_entities(h) if f[0] == "C01"], slices=["ent"], ref="§7 C01"),
+    # join histories (new clients joining while others spawn / despawn): the entity-set part of the join oracle, for
+    # newcomers and established clients (what a *returning* client keeps is C03's subject, finding D16)
+    "C01": dict(families=[("ent", 40, 400), ("join", 12, 120)],
+                oracle=lambda h: ([f for f in T.oracle_entities(h) if f[0] == "C01"] if h.family == "ent" else
+                                  [("C01",) + f[1:] for f in T.oracle_join(h)
+                                   if "returning client" not in f[1] and ("live entities with the same uuid" in f[1] or "synchronized entities" in f[1])]),
+                slices=["ent"], slice_families=("ent",), ref="§7 C01"),
     "C15": dict(families=[("conn", 40, 400)], oracle=lambda h: T.oracle_conn(h), slices=["conn"], ref="§7 C15"),
     "C05": dict(families=[("parent", 36, 400)], oracle=lambda h: T.oracle_parents(h), slices=["parent"], ref="§7 C05"),
     "C04": dict(families=[("filter", 30, 300)], oracle=lambda h: T.filter_checks(h)[1], slices=["filter"], ref="§7 C04"),
@@ -157,6 +163,8 @@ def check(prop_id, tier, seed, replay=None):
                 inst_of[l.split(" ")[1]] = (h, {})
                 lines.append(l)
         for kind in [k for k in plan["slices"] if k not in ("fault", "skin", "fixrun", "filter", "conn", "asset", "mark", "snapj", "promo")]:
+            if plan.get("slice_families") and h.family not in plan["slice_families"]:
+                continue
             for inst, ls, meta in slice_lines(h, kind, flags):
                 if ls is None:
                     skipped += 1
